@@ -123,24 +123,28 @@ package utils
 //@   ensures[C03:writer-state] w.header != nil && w.bodyWriter == old(w.bodyWriter) && w.bodyReader == old(w.bodyReader) && w.respChan == old(w.respChan) && w.r == old(w.r)
 //@   ensures[C03:fresh-maps-after-commit] !old(w.wroteHeader) && !(100 <= status && status <= 199) ==> w.trailer != nil && w.trailer != w.header && canonKeys(w.header) && canonKeys(w.trailer) && forall_str(t, in(t, w.trailer) ==> !mayDrop(t)) && forall_str(k, in(k, w.header) ==> in(k, old(w.header)))
 //@   loop 1
+//@     at for _, v := range w.Header().Values("Trailer")
 //@     assigns mapof(w.trailer)
 //@     invariant[C03:t-canon-outer] canonKeys(w.trailer)
 //@     invariant[C03:t-decl-outer] w.trailer != nil && w.trailer != old(w.header) && w.header == old(w.header) && !allocated0(w.trailer)
 //@     invariant[C03:t-keys-outer] forall_str(t, in(t, w.trailer) <==> old(declared(values(w.header, "Trailer"), t, idx + 1, -1)))
 //@     invariant[C03:t-empty-outer] forall_str(t, in(t, w.trailer) ==> len(w.trailer[t]) == 0)
 //@   loop 2
+//@     at for _, k := range strings.Split(v, ",")
 //@     assigns mapof(w.trailer)
 //@     invariant[C03:t-canon-inner] canonKeys(w.trailer)
 //@     invariant[C03:t-decl-inner] w.trailer != nil && w.trailer != old(w.header) && w.header == old(w.header) && !allocated0(w.trailer) && 0 <= idx1 && idx1 < old(len(values(w.header, "Trailer"))) && v == old(values(w.header, "Trailer")[idx1])
 //@     invariant[C03:t-keys-inner] forall_str(t, in(t, w.trailer) <==> old(declared(values(w.header, "Trailer"), t, idx1, idx)))
 //@     invariant[C03:t-empty-inner] forall_str(t, in(t, w.trailer) ==> len(w.trailer[t]) == 0)
 //@   loop 3
+//@     at for k, vs := range w.Header()
 //@     assigns mapof(header)
 //@     invariant[C03:h-fresh] header != nil && !allocated0(header) && header != w.trailer && w.header == old(w.header) && canonKeys(old(w.header))
 //@     invariant[C03:h-drop] forall_str(k, in(k, header) ==> !mayDrop(k) && in(k, old(w.header)) && visited[k])
 //@     invariant[C03:h-keep] forall_str(k, visited[k] && !mayDrop(k) && len(old(w.header)[k]) > 0 ==> in(k, header))
 //@     invariant[C03:h-vals] forall_str(k, in(k, header) ==> len(header[k]) == len(old(w.header)[k]))
 //@   loop 4
+//@     at for _, v := range vs
 //@     assigns mapof(header)
 //@     invariant[C03:v-fresh] header != nil && !allocated0(header) && header != w.trailer && w.header == old(w.header) && !mayDrop(k) && in(k, old(w.header)) && visited[k] && vs == old(w.header)[k] && canon(k) == k
 //@     invariant[C03:v-others-a] forall_str(k2, k2 != k && in(k2, header) ==> !mayDrop(k2) && in(k2, old(w.header)) && visited[k2])
@@ -190,6 +194,7 @@ package utils
 //@     do closes = closes + 1
 //@   ensures[C03:body-closed-once] closes == 1
 //@   loop 1
+//@     at for k, _ := range w.trailer
 //@     assigns mapof(w.trailer)
 //@     invariant[C03:c1] w.trailer != nil && w.header != nil && w.trailer != w.header && w.bodyWriter == old(w.bodyWriter) && canonKeys(w.trailer) && canonKeys(w.header) && prefixedCanon(w.header) && closes == 0
 //@     invariant[C03:c1-nohop] forall_str(t, in(t, w.trailer) ==> !mayDrop(t))
@@ -197,6 +202,7 @@ package utils
 //@     invariant[C03:c1-visited] forall_str(t, visited[t] ==> in(t, w.trailer))
 //@     invariant[C03:c1-counts] forall_str(t, tlen(w.trailer, t) == pre(tlen(w.trailer, t)) + ite(visited[t], tlen(w.header, t), 0))
 //@   loop 2
+//@     at for _, v := range w.Header().Values(k)
 //@     assigns mapof(w.trailer)
 //@     invariant[C03:c2] w.trailer != nil && w.header != nil && w.trailer != w.header && w.bodyWriter == old(w.bodyWriter) && canonKeys(w.trailer) && canonKeys(w.header) && prefixedCanon(w.header) && closes == 0 && in(k, w.trailer) && visited[k]
 //@     invariant[C03:c2-nohop] forall_str(t, in(t, w.trailer) ==> !mayDrop(t))
@@ -205,12 +211,14 @@ package utils
 //@     invariant[C03:c2-this] tlen(w.trailer, k) == preOf(1, tlen(w.trailer, k)) + idx + 1
 //@     invariant[C03:c2-source] len(vals) == tlen(w.header, k) && (in(k, w.header) ==> vals == w.header[k])
 //@   loop 3
+//@     at for k, vs := range w.Header()
 //@     assigns mapof(w.trailer)
 //@     invariant[C03:c3] w.trailer != nil && w.header != nil && w.trailer != w.header && w.bodyWriter == old(w.bodyWriter) && canonKeys(w.trailer) && canonKeys(w.header) && prefixedCanon(w.header) && closes == 0
 //@     invariant[C03:c3-nohop] forall_str(t, in(t, w.trailer) ==> !mayDrop(t))
 //@     invariant[C03:c3-visited] forall_str(x, visited[x] ==> in(x, w.header))
 //@     invariant[C03:c3-counts] forall_str(t, tlen(w.trailer, t) == pre(tlen(w.trailer, t)) + ite(visited[pk(t)] && !mayDrop(t), tlen(w.header, pk(t)), 0))
 //@   loop 4
+//@     at for _, v := range vs
 //@     assigns mapof(w.trailer)
 //@     invariant[C03:c4] w.trailer != nil && w.header != nil && w.trailer != w.header && w.bodyWriter == old(w.bodyWriter) && canonKeys(w.trailer) && canonKeys(w.header) && prefixedCanon(w.header) && closes == 0 && canon(k) == k && !mayDrop(k)
 //@     invariant[C03:c4-nohop] forall_str(t, in(t, w.trailer) ==> !mayDrop(t))
@@ -259,6 +267,7 @@ package utils
 //@     assert[C06:body-not-in-use-by-transport] !lent
 //@     do seekFailed = ret1 != nil
 //@   loop 1
+//@     at for retryCount := 0; retryCount <= maxWriteResponseRetryCount; retryCount++
 //@     invariant[C06:attempt-count] attempts == retryCount && 0 <= retryCount && retryCount <= 3 && !seekFailed
 //@     invariant[C06:rewound] brs != nil && brsOK(brs) && brsPos(brs) == 0 && proxyReadSeeker == brs && proxyReq != nil && proxyReq.Body == bodyH && proxyReq.Header != nil
 //@     invariant[C01:ids-kept] len(values(proxyReq.Header, "X-Inverting-Proxy-Backend-ID")) == 1 && values(proxyReq.Header, "X-Inverting-Proxy-Backend-ID")[0] == backendID
@@ -275,6 +284,7 @@ package utils
 //@     do tries = tries + 1
 //@   ensures[C07:response-or-error] r1 == nil ==> r0 != nil && r0.Body != nil && r0.Header != nil
 //@   loop 1
+//@     at for retryCount := 0; retryCount <= maxReadRequestRetryCount; retryCount++
 //@     invariant[C07:fetch-loop] 0 <= retryCount && tries == retryCount && proxyReq != nil && proxyReq.Header != nil && (retryCount > 0 ==> err != nil || (proxyResp != nil && proxyResp.Body != nil && proxyResp.Header != nil))
 //@     invariant[C01:fetch-ids-kept] len(values(proxyReq.Header, "X-Inverting-Proxy-Backend-ID")) == 1 && values(proxyReq.Header, "X-Inverting-Proxy-Backend-ID")[0] == backendID
 //@     |   && len(values(proxyReq.Header, "X-Inverting-Proxy-Request-ID")) == 1 && values(proxyReq.Header, "X-Inverting-Proxy-Request-ID")[0] == requestID
@@ -301,6 +311,7 @@ package utils
 // queued once on a channel of capacity one that only this goroutine closes.
 // rely: the streaming writer sends only non-nil responses (its WriteHeader contract builds the response it sends).
 //@ func NewResponseForwarder$2 props(C03,C05,C07)
+//@   at defer proxyWriter.Close()
 //@   requires r != nil && respChan != nil && proxyWriter != nil && rw != nil && writeErrChan != nil && !closed(writeErrChan) && chcap(writeErrChan) == 1 && chlen(writeErrChan) == 0
 //@   ghost got *http.Response = nil
 //@   ghost gotStatus int = 0
@@ -361,6 +372,7 @@ package utils
 
 // ---- shutdown signal (C20): the returned channel is closed when, and only when, a SIGINT/SIGTERM has been received ----
 //@ func ShutdownSignalChan$1 props(C20)
+//@   at close(ch)
 //@   requires sigs != nil && ch != nil && !closed(ch)
 //@   ghost got int = 0
 //@   ghost closedCh int = 0
